@@ -186,14 +186,20 @@ theorem mapM_dec_enc (enc : ν → τ) (dec : τ → Option ν) (hc : ∀ x, dec
   | nil => rfl
   | cons a t ih => simp [List.mapM_cons, hc, ih]
 
+theorem load_fileOf (enc : ν → τ) (dec : τ → Option ν) (hc : ∀ x, dec (enc x) = some x)
+    (m m' : TM ν) :
+    TM.load dec m' (TM.fileOf enc m) = some { m' with expTimes := m.expTimes, expDt := m.expDt } := by
+  unfold TM.load TM.fileOf
+  simp only [mapM_dec_enc enc dec hc]
+
 /-- time_info_roundtrip: with a number codec that round-trips (`dec (enc x) = some x`), loading
     the file written by `write_time_information` gives any manager exactly the written history:
     the previous history followed by the current time and time step. -/
 theorem time_info_roundtrip (enc : ν → τ) (dec : τ → Option ν) (hc : ∀ x, dec (enc x) = some x)
     (m m' : TM ν) :
     TM.load dec m' (TM.write enc m).2 =
-      some { m' with expTimes := m.expTimes ++ [m.time], expDt := m.expDt ++ [m.dt] } := by
-  simp [TM.load, TM.write, TM.fileOf, mapM_dec_enc enc dec hc]
+      some { m' with expTimes := m.expTimes ++ [m.time], expDt := m.expDt ++ [m.dt] } :=
+  load_fileOf enc dec hc { m with expTimes := m.expTimes ++ [m.time], expDt := m.expDt ++ [m.dt] } m'
 
 theorem steps_history (enc : ν → τ) (m : TM ν) (ws : List (ν × ν)) :
     (TM.steps enc m ws).expTimes = m.expTimes ++ ws.map (·.1) ∧
@@ -201,9 +207,10 @@ theorem steps_history (enc : ν → τ) (m : TM ν) (ws : List (ν × ν)) :
   induction ws generalizing m with
   | nil => simp [TM.steps]
   | cons w ws ih =>
-    have := ih (TM.write enc { m with time := w.1, dt := w.2 }).1
-    simp only [TM.steps, this, TM.write, List.map_cons, List.append_assoc, List.cons_append,
-      List.nil_append, and_self]
+    have := ih { time := w.1, dt := w.2, expTimes := m.expTimes ++ [w.1], expDt := m.expDt ++ [w.2] }
+    simp only [TM.steps, TM.write]
+    rw [this.1, this.2]
+    simp
 
 /-- the file left on disk by a whole simulation restores the whole sequence of written
     (time, dt) pairs, in order -/
@@ -212,7 +219,7 @@ theorem time_history_roundtrip (enc : ν → τ) (dec : τ → Option ν) (hc : 
     TM.load dec m' (TM.fileOf enc (TM.steps enc m ws)) =
       some { m' with expTimes := m.expTimes ++ ws.map (·.1), expDt := m.expDt ++ ws.map (·.2) } := by
   have h := steps_history enc m ws
-  simp [TM.load, TM.fileOf, mapM_dec_enc enc dec hc, h.1, h.2]
+  rw [load_fileOf enc dec hc, h.1, h.2]
 
 /-- restart at exported step `k`: the manager gets the time and the time step written at step
     `k`, and keeps the history before it -/
@@ -227,7 +234,8 @@ theorem restart_time_restored_last (m : TM ν) (ws : List (ν × ν)) (w : ν ×
     TM.setFromExported { m with expTimes := (ws ++ [w]).map (·.1), expDt := (ws ++ [w]).map (·.2) } (-1) =
       some { time := w.1, dt := w.2, expTimes := ws.map (·.1), expDt := ws.map (·.2) } := by
   have e : ((ws.length : Int) + 1 + -1).toNat = ws.length := by omega
-  simp [TM.setFromExported, pyGet, pyTake, e]
+  have e2 : (0 : Int) ≤ (ws.length : Int) + 1 + -1 := by omega
+  simp [TM.setFromExported, pyGet, pyTake, e, e2]
 
 /-! ## the time step restored from a pvd file -/
 
